@@ -3,11 +3,9 @@ import LekkerVerif.Properties.C01
 
 /-! # C08 — composition preserves energy conservation, passivity and reciprocity
 
-Kernel level (the regenerated `Generated.add`, any field / any power functional), and network level
-for reciprocity (the executable `solveWith`, any schedule).  The network-level statements for
-unitarity and passivity follow the same loop induction (`Solve.loopWith_preserves`) and are listed in
-DESIGN.md as the next obligations; until then they are covered at kernel level plus by the
-correspondence/oracle run. -/
+Kernel level (the regenerated `Generated.add`, any field / any power functional / any pairing) and network
+level (the executable `solveWith`, any schedule): reciprocity, losslessness (hence unitarity `Tᴴ T = 1` over a
+star field) and passivity are carried through the elimination loop by `Solve.loopWith_preserves`. -/
 
 open Matrix
 
@@ -59,4 +57,73 @@ theorem C08_reciprocal (net : NetD F) (wf : net.WF) (sched) (total : St F)
     ∀ p ∈ total.pins, ∀ q ∈ total.pins, total.sem p q = total.sem q p :=
   NetD.solveWith_recip net wf sched total h hr
 
+/-- **network level, any schedule, any pairing**: a circuit of lossless components is lossless: for all input
+assignments `a, a'` on the free pins, `Σ φ (out a') (out a) = Σ φ a' a` over the pins of the solved structure
+(the free pins of the circuit) -/
+theorem C08_lossless {R : Type*} [AddCommGroup R] (φ : F → F → R) (net : NetD F) (wf : net.WF) (sched) (total : St F)
+    (h : net.solveWith sched = .ok total) (hl : ∀ s ∈ net.initial, s.LosslessW φ) : total.LosslessW φ :=
+  NetD.solveWith_lossless φ net wf sched total h hl
+
+/-- **network level, any schedule, any power functional**: a circuit of passive components never shows gain:
+`Σ w (out a p) ≤ Σ w (a p)` over the free pins (with `w z = |z|²` over ℂ: output power ≤ input power; exposing only
+some of the free pins only drops non-negative terms on the left and sets inputs to zero on the right) -/
+theorem C08_passive {R : Type*} [AddCommGroup R] [PartialOrder R] [IsOrderedAddMonoid R] (w : F → R)
+    (net : NetD F) (wf : net.WF) (sched) (total : St F)
+    (h : net.solveWith sched = .ok total) (hl : ∀ s ∈ net.initial, s.PassiveW w) : total.PassiveW w :=
+  NetD.solveWith_passive w net wf sched total h hl
+
 end network
+
+section network_unitary
+variable {K : Type} [Field K] [StarRing K] [DecidableEq K]
+
+theorem sum_single (l : List PinRef) (hn : l.Nodup) (f : PinRef → K) (y : PinRef) (hy : y ∈ l) :
+    (l.map fun q => f q * (if q = y then (1 : K) else 0)).sum = f y := by
+  induction l with
+  | nil => simp at hy
+  | cons e es ih =>
+    obtain ⟨hne, hnes⟩ := List.nodup_cons.1 hn
+    simp only [List.map_cons, List.sum_cons]
+    rcases List.mem_cons.1 hy with rfl | hy
+    · have : (es.map fun q => f q * (if q = y then (1 : K) else 0)).sum = 0 := by
+        apply List.sum_eq_zero
+        intro z hz
+        obtain ⟨q, hq, rfl⟩ := List.mem_map.1 hz
+        have : q ≠ y := fun e => hne (e ▸ hq)
+        rw [if_neg this, mul_zero]
+      rw [this, if_pos rfl, mul_one, add_zero]
+    · have : e ≠ y := fun h => hne (h ▸ hy)
+      rw [if_neg this, mul_zero, zero_add]
+      exact ih hnes hy
+
+/-- **network-level unitarity, any schedule**: if every component is lossless for the pairing `star x * y`
+(i.e. its matrix is unitary on its pins), the solved matrix `T` over the circuit's free pins satisfies
+`Σ_p star (T p x) * T p y = δ_xy` — `Tᴴ T = 1`, total output power equals total input power -/
+theorem C08_unitary (net : NetD K) (wf : net.WF) (sched) (total : St K)
+    (h : net.solveWith sched = .ok total)
+    (hl : ∀ s ∈ net.initial, s.LosslessW (fun x y : K => star x * y)) :
+    ∀ x ∈ total.pins, ∀ y ∈ total.pins,
+      (total.pins.map fun p => star (total.sem p x) * total.sem p y).sum = if x = y then 1 else 0 := by
+  intro x hx y hy
+  have hL := C08_lossless (fun x y : K => star x * y) net wf sched total h hl
+  have hnd : total.pins.Nodup :=
+    (Solve.loopWith_sound net.Sol sched _ _ _ total (NetD.fullInv_initial net wf).linv h).nodup
+  have key := hL (fun q => if q = y then 1 else 0) (fun q => if q = x then 1 else 0)
+  have ho : ∀ (z : PinRef), z ∈ total.pins → ∀ p, total.out (fun q => if q = z then (1 : K) else 0) p = total.sem p z := by
+    intro z hz p
+    unfold St.out rowSum
+    exact sum_single total.pins hnd (fun q => total.sem p q) z hz
+  unfold pairL at key
+  simp only [ho x hx, ho y hy] at key
+  rw [key]
+  have : (total.pins.map fun p => star (if p = x then (1 : K) else 0) * (if p = y then (1 : K) else 0)).sum
+      = star (if y = x then (1 : K) else 0) := by
+    have := sum_single total.pins hnd (fun p => star (if p = x then (1 : K) else 0)) y hy
+    simpa using this
+  rw [this]
+  by_cases hxy : x = y
+  · subst hxy; simp
+  · have : y ≠ x := fun e => hxy e.symm
+    simp [hxy, this]
+
+end network_unitary
